@@ -17,7 +17,7 @@ PROBE_T = 700.0
 END_T = 900.0
 
 
-def make_site(net):
+def make_site(net, render_delay=0.0):
     import aiocoap
     from aiocoap import resource
 
@@ -33,7 +33,13 @@ def make_site(net):
         async def render_get(self, request):
             if self.fail:
                 return aiocoap.Message(code=aiocoap.numbers.codes.Code(R.NOT_FOUND), payload=b"gone")
-            return aiocoap.Message(payload=b"state-%d" % self.state)
+            seen = self.state
+            if render_delay:
+                # a rendering that takes time: state changes may land while it is under way
+                import asyncio
+
+                await asyncio.sleep(render_delay)
+            return aiocoap.Message(payload=b"state-%d" % seen)
 
     site = resource.Site()
     res = Counter()
@@ -47,7 +53,8 @@ def run_case(case, want_trace=False):
     vio = []
     labels = set()
     try:
-        site, res = make_site(net)
+        rdelay = case.get("render_delay", 0.0)
+        site, res = make_site(net, rdelay)
         x = net.add_context("X", *X, site=site)
         reactions = {i: list(case.get("reactions", {}).get(str(i), [])) for i in range(len(OBSERVERS))}
         seen_mids = {i: {} for i in range(len(OBSERVERS))}
@@ -123,18 +130,27 @@ def run_case(case, want_trace=False):
             net.order += 1
             net.events.append((net.loop.time(), "shutdown", None, net.order))
         net.run_until(PROBE_T)
-        # probe at quiescence: one more state change
+        # probe at quiescence: one more state change (scheduled on the loop, like an application would do it)
         probe_state = None
         for lst_ in reactions.values():
             del lst_[:]
-        if shutdown_at is None:
-            bump(1)
-            probe_state = res.state
-        else:
+        probe_err = []
+
+        def probe():
             try:
                 bump(1)
             except Exception as e:
-                vio.append(V("C08/updated_state-after-shutdown-raises/" + type(e).__name__, repr(e)))
+                probe_err.append(e)
+
+        net.at(PROBE_T + 0.001, probe)
+        if rdelay and shutdown_at is None:
+            # a burst whose last change lands while the notification for the first one is being rendered
+            net.at(PROBE_T + 0.001 + rdelay / 2, probe)
+        net.run_until(PROBE_T + 1.0)
+        if probe_err:
+            vio.append(V("C08/updated_state-raises/" + type(probe_err[0]).__name__, repr(probe_err[0])))
+        elif shutdown_at is None:
+            probe_state = res.state
         net.run_until(END_T)
 
         def state_of(payload):
@@ -202,7 +218,7 @@ def run_case(case, want_trace=False):
             ss = starts.get(key, [])
             own = None
             for i, t0 in enumerate(ss):
-                if m["observe"] == 0 and abs(m["t"] - t0) < 1e-9:  # the registration response always carries Observe 0
+                if m["observe"] == 0 and t0 - 1e-9 <= m["t"] <= t0 + rdelay + 1e-9:  # the registration response always carries Observe 0
                     own = i  # of several generations starting at one instant only the last one gets to answer
             if own is not None:
                 return own
@@ -406,6 +422,20 @@ def _case(draw):
     return case
 
 
+@st.composite
+def _slow_case(draw):
+    """renderings that take time: registrations first, then only state changes (so that the registration model stays
+    trivial), many of them landing while a notification is being rendered; ends with the burst probe"""
+    rdelay = draw(st.sampled_from([0.02, 0.1, 0.3]))
+    nobs = draw(st.integers(1, 3))
+    events = [{"kind": "register", "t": 0.0, "observer": i, "token": draw(st.integers(0, 1)), "con": draw(st.booleans())} for i in range(nobs)]
+    t = 1.0
+    for _ in range(draw(st.integers(1, 10))):
+        t += draw(st.sampled_from([rdelay / 2, rdelay / 2, rdelay * 0.9, rdelay * 1.5, 0.5, 2.0, 3 * rdelay]))
+        events.append({"kind": "bump", "t": round(t, 6), "n": draw(st.sampled_from([1, 1, 2]))})
+    return {"events": events, "reactions": {}, "fates": [], "rng": draw(st.integers(0, 9)), "render_delay": rdelay}
+
+
 def selftest():
     import aiocoap.interfaces as itf
 
@@ -428,20 +458,23 @@ def selftest():
 
 
 RULE = (
-    "An observable counter resource on a real aiocoap server; 1-3 raw observers (two share an IP) register with CON or NON GET Observe=0 on two tokens; 2-12 further events at "
+    "scenarios: an observable counter resource on a real aiocoap server; 1-3 raw observers (two share an IP) register with CON or NON GET Observe=0 on two tokens; 2-12 further events at "
     "offsets 0-150 s: application state changes (bursts of 1-5 updated_state() calls), re-registration, a plain GET or Observe=1 on the same token, trigger(is_last=True), an unsuccessful "
     "notification, an ICMP-style error for an observer, optional context shutdown; per observer a list of reactions to CON notifications (ACK after 0-3 s, RST, silence => time-out) and "
     "datagram fates (drop/delay/dup). Oracle: a model replays the processed events in order and derives for every accepted registration its end cause and instant (RST matching a CON "
     "notification, unsuccessful / last notification, new request on the token, CON notification time-out, transport error, shutdown); per registration the Observe values on the wire strictly "
     "increase, no state that changed after the end is ever sent to it, at quiescence a probe state change reaches exactly the registrations still alive (latest state eventually sent / nothing for "
-    "ended ones), the resource's observer count moves in steps of 1 and ends at the number of alive registrations, no loop exception. Non-trivial = a state change within 300 ms after a CON "
+    "ended ones), the resource's observer count moves in steps of 1 and ends at the number of alive registrations, no loop exception. slow_render: the resource takes 20/100/300 ms to render after reading its state; 1-3 observers register, then 1-10 state changes follow at gaps of 0.5-3 rendering times (many land while a notification is being rendered) and a final burst of two changes, the second during the rendering of the first: every live registration must still get the final state. Non-trivial = a state change within 300 ms after a CON "
     "notification went out (in flight), or an end cause other than shutdown. Distinct = SHA-1 of the case."
 )
 
 
 def build(tier):
     return CheckSpec(
-        [Sub("scenarios", run_case, strategy=_case, budget={"quick": 6000, "thorough": 60000}, max_wall={"quick": 55, "thorough": 2400})],
+        [
+            Sub("scenarios", run_case, strategy=_case, budget={"quick": 6000, "thorough": 60000}, max_wall={"quick": 55, "thorough": 2400}),
+            Sub("slow_render", run_case, strategy=_slow_case, budget={"quick": 1500, "thorough": 20000}, max_wall={"quick": 40, "thorough": 1200}),
+        ],
         RULE,
         assumptions=[
             "OS boundary replaced by vlib.simnet",
